@@ -16,7 +16,9 @@
 (*           tools <<name>>, rd <<name>> (return-directly), maxstep        *)
 (*           (0 = default), modifier BOOLEAN (a message modifier that      *)
 (*           prepends the system message "sys")                            *)
-(*   run     mode "generate" | "stream"                                    *)
+(*   run     mode "generate" | "stream", msgs: the input messages of THIS  *)
+(*           run (the two runs of a case use one agent, possibly at the    *)
+(*           same time, and are given different inputs)                    *)
 (*   mcall   input <<msg>>: what the chat model received                   *)
 (*   tool    name, args, out: a tool ran and gave out                      *)
 (*   answer  msg: what Generate returned / what the Stream chunks          *)
@@ -68,7 +70,7 @@ Bad(S, why) == [S EXCEPT !.bad = why]
 
 RunRule(S, e) ==
   IF S.inrun THEN Bad(S, "run-started-inside-a-run")
-  ELSE [S EXCEPT !.inrun = TRUE, !.phase = "model", !.k = 0, !.steps = 0, !.hist = RenderAll(S.c.msgs), !.cur = <<>>, !.pending = {},
+  ELSE [S EXCEPT !.inrun = TRUE, !.phase = "model", !.k = 0, !.steps = 0, !.hist = RenderAll(e.msgs), !.cur = <<>>, !.pending = {},
                  !.outs = <<>>, !.started = FALSE, !.expect = NoMsg, !.viard = FALSE, !.nruns = @ + 1, !.mode = e.mode]
 
 ModelInput(S) == IF S.c.modifier THEN <<SysMsg>> \o S.hist ELSE S.hist
